@@ -581,8 +581,13 @@ class FileCache:
                 if success:
                     self._add_to_cache(cache_miss.filename, cache_miss.filepath)
                 else:
-                    index = filepaths.index(cache_miss.filepath)
-                    filepaths.pop(index)
+                    # A uri may be listed more than once; drop every occurrence of
+                    # the file that could not be retrieved.
+                    filepaths = [
+                        filepath
+                        for filepath in filepaths
+                        if filepath != cache_miss.filepath
+                    ]
 
         # A uri may be listed more than once; count each requested file only once.
         size_of_requested_data = _get_total_size_of_files_in_bytes(
